@@ -462,7 +462,26 @@ func (i *Interp) templateRender(caller *frame, s *Term, cache value, extra *mapV
 		if !strings.HasPrefix(action, ".") || strings.ContainsAny(action, " |()") {
 			fault("templater model: unsupported template action %q", action)
 		}
-		v, ok := i.templateLookup(caller, cache, extra, action[1:])
+		path := strings.Split(action[1:], ".")
+		v, ok := i.templateLookup(caller, cache, extra, path[0])
+		for _, key := range path[1:] {
+			if !ok || v.t == nil {
+				break
+			}
+			m, isMap := v.v.(*mapV)
+			if !isMap || m == nil {
+				ok = false
+				break
+			}
+			found := false
+			for k := range m.keys {
+				if kt, isT := m.keys[k].(*Term); isT && kt.Const && kt.S == key {
+					v, found = m.vals[k].(iface), true
+					break
+				}
+			}
+			ok = found
+		}
 		if ok && v.t != nil {
 			out = StrConcat(out, i.formatValue(caller, v, 'v'))
 		}
